@@ -62,7 +62,7 @@ def _hash_tree(root, h, exts=(".rs", ".toml", ".lock", ".md")):
         for f in sorted(files):
             if f.endswith(exts):
                 p = os.path.join(d, f)
-                h.update(p.encode())
+                h.update(os.path.relpath(p, root).encode())     # relative: the same tree elsewhere hashes the same
                 with open(p, "rb") as fh:
                     h.update(fh.read())
 
